@@ -17,3 +17,44 @@ pub assume_specification<T, A: core::alloc::Allocator, F: FnMut(&T) -> bool> [Ve
         forall|p: spec_fn(T) -> bool| #![trigger seq_filter_by(old(v)@, p)]
             (forall|x: T| (f.ensures((&x,), true) ==> p(x)) && (f.ensures((&x,), false) ==> !p(x)))
             ==> final(v)@ == seq_filter_by(old(v)@, p);
+
+pub proof fn lemma_filter_all<T>(s: Seq<T>, keep: spec_fn(T) -> bool)
+    requires forall|i: int| 0 <= i < s.len() ==> keep(#[trigger] s[i])
+    ensures seq_filter_by(s, keep) == s
+    decreases s.len()
+{
+    if s.len() > 0 {
+        lemma_filter_all(s.drop_last(), keep);
+        assert(s.drop_last().push(s.last()) =~= s);
+    }
+}
+pub proof fn lemma_filter_ext<T>(s: Seq<T>, p: spec_fn(T) -> bool, q: spec_fn(T) -> bool)
+    requires forall|i: int| 0 <= i < s.len() ==> p(#[trigger] s[i]) == q(s[i])
+    ensures seq_filter_by(s, p) == seq_filter_by(s, q)
+    decreases s.len()
+{
+    if s.len() > 0 { lemma_filter_ext(s.drop_last(), p, q); }
+}
+// every element of a filter result is an element of the source that satisfies the predicate, order kept
+pub proof fn lemma_filter_sub<T>(s: Seq<T>, keep: spec_fn(T) -> bool)
+    ensures
+        seq_filter_by(s, keep).len() <= s.len(),
+        forall|i: int| 0 <= i < seq_filter_by(s, keep).len() ==> keep(#[trigger] seq_filter_by(s, keep)[i]) && s.contains(seq_filter_by(s, keep)[i]),
+    decreases s.len()
+{
+    if s.len() > 0 {
+        lemma_filter_sub(s.drop_last(), keep);
+        let f = seq_filter_by(s, keep);
+        assert forall|i: int| 0 <= i < f.len() implies keep(#[trigger] f[i]) && s.contains(f[i]) by {
+            let p = seq_filter_by(s.drop_last(), keep);
+            if i < p.len() {
+                assert(f[i] == p[i]);
+                let j = choose|j: int| 0 <= j < s.drop_last().len() && s.drop_last()[j] == p[i];
+                assert(s[j] == p[i]);
+            } else {
+                assert(f[i] == s.last());
+                assert(s[s.len() - 1] == s.last());
+            }
+        }
+    }
+}
